@@ -1,1 +1,31 @@
-fn main(){ println!("ok"); }
+//! vharness — runtime monitors for quickwit-oss/chitchat. See /verif/DESIGN.md.
+#![allow(dead_code)]
+mod codec;
+mod common;
+mod e1;
+mod sim;
+
+use common::*;
+
+fn main() {
+    install_panic_hook();
+    let args = parse_args();
+    if args.prop.is_empty() {
+        eprintln!("usage: vharness <C01..C20> [--tier quick|thorough] [--seed N] [--replay PATH]");
+        std::process::exit(2);
+    }
+    let code = match args.prop.as_str() {
+        "C01" | "C02" | "C03" | "C04" | "C05" | "C12" | "C13" | "C16" | "C20" => {
+            if let Some(p) = &args.replay {
+                e1::replay(&args, p)
+            } else {
+                finish(e1::check(&args))
+            }
+        }
+        other => {
+            eprintln!("no check for {other}");
+            2
+        }
+    };
+    std::process::exit(code);
+}
